@@ -11,22 +11,33 @@ import tempfile
 from ..common import HOME, Inconclusive, Violation, rng_for
 
 
-def run(case):
+def run(case, kind="fsdp1"):
     from .. import gen as G
 
     rnd = rng_for(*case["seed"], "real")
-    mode, W, R, Sn, Gs = rnd.choice([("fsdp", 2, 1, 2, 1), ("fsdp", 3, 1, 3, 1), ("fsdp", 4, 1, 4, 1), ("hsdp", 4, 2, 2, 2), ("hsdp", 4, 2, 2, 1), ("hsdp", 2, 2, 1, 2)])
+    if kind == "fsdp1":
+        mode, W, R, Sn, Gs = rnd.choice([("fsdp", 2, 1, 2, 1), ("fsdp", 3, 1, 3, 1), ("fsdp", 4, 1, 4, 1), ("hsdp", 4, 2, 2, 2), ("hsdp", 4, 2, 2, 1), ("hsdp", 2, 2, 1, 2)])
+        module = "vf.fsdp_rank"
+    else:  # real fully_shard (FSDP2) parameter layout
+        mode, W, R, Sn, Gs = rnd.choice([("fully", 2, 1, 2, 1), ("fully", 3, 1, 3, 1), ("fully", 4, 1, 4, 1), ("hybrid", 4, 2, 2, 2), ("hybrid", 4, 2, 2, 1), ("hybrid", 2, 2, 1, 2)])
+        module = "vf.fs2_rank"
     cfg = G.rand_config(rnd, grad_scale=1.0, allow_iterative=False, dtype_pair=("float32", "float32"), well_conditioned=True, max_dim_choices=(2, 3, 4, 1024))
     from .c06 import _tame
 
     _tame(cfg)
     shapes = G.rand_shapes(rnd, n_params=rnd.randint(3, 5), max_order=3, max_numel=60, min_order=1)
-    S = {"mode": mode, "W": W, "R": R, "S": Sn, "G": Gs, "comm": rnd.choice(["DEFAULT", "FP32"]), "communicate_params": rnd.random() < 0.5, "cfg": cfg, "shapes": shapes, "T": 4, "seed": case["seed"], "grad_scale": 1.0}
+    if kind != "fsdp1":
+        # every shard rank needs at least G blocks: make the first parameter tall enough for all shard ranks
+        shapes[0] = [max(shapes[0][0], 2 * Sn)] + shapes[0][1:]
+        shapes.append([2 * Sn, 2])
+    T = 4
+    pk, pres = G.rand_presence(rnd, len(shapes), T, kind=rnd.choice(["all", "toggle", "bursts"]))
+    S = {"presence": pres, "mode": mode, "W": W, "R": R, "S": Sn, "G": Gs, "comm": rnd.choice(["DEFAULT", "FP32"]), "communicate_params": rnd.random() < 0.5, "cfg": cfg, "shapes": shapes, "T": 4, "seed": case["seed"], "grad_scale": 1.0}
     d = tempfile.mkdtemp(prefix="vf_fsdp_")
     counters = {"evals": 1, "real_fsdp_runs": 1, "real_metadata_checked": 0, "real_steps_bitwise": 0, "real_steps_tolerance": 0, "real_sub_tensors": 0}
     try:
         json.dump(S, open(os.path.join(d, "setup.json"), "w"))
-        procs = [subprocess.Popen([sys.executable, "-m", "vf.fsdp_rank", os.path.join(d, "setup.json"), str(r), d], cwd=HOME, env=dict(os.environ), stdout=open(os.path.join(d, f"out{r}.txt"), "w"), stderr=subprocess.STDOUT) for r in range(W)]
+        procs = [subprocess.Popen([sys.executable, "-m", module, os.path.join(d, "setup.json"), str(r), d], cwd=HOME, env=dict(os.environ), stdout=open(os.path.join(d, f"out{r}.txt"), "w"), stderr=subprocess.STDOUT) for r in range(W)]
         timed_out = False
         for p in procs:
             try:
@@ -37,7 +48,7 @@ def run(case):
             if p.poll() is None:
                 p.kill()
                 p.wait()
-        desc = {"family": "real_fsdp", "mode": mode, "W": W, "R": R, "S": Sn, "G": Gs, "shapes": shapes, "cfg": cfg}
+        desc = {"family": "real_fsdp" if kind == "fsdp1" else "real_fully_shard", "mode": mode, "W": W, "R": R, "S": Sn, "G": Gs, "shapes": shapes, "cfg": cfg}
         res = {}
         for r in range(W):
             f = os.path.join(d, f"result_{r}.json")
@@ -51,10 +62,10 @@ def run(case):
             tails = {r: open(os.path.join(d, f"out{r}.txt")).read()[-500:] for r in range(W)}
             raise Inconclusive(f"real FSDP run did not produce a verdict (timeout={timed_out}, results={sorted(res)}): {tails}")
         for o in res.values():
-            counters["real_metadata_checked"] += o["metadata_checked"]
+            counters["real_metadata_checked"] += o.get("metadata_checked", 0) + o.get("layout_checked", 0)
             counters["real_steps_bitwise"] += o["steps_bitwise"]
             counters["real_steps_tolerance"] += o["steps_tolerance"]
-            counters["real_sub_tensors"] += o["sub_tensors"]
-        return {"counters": counters, "sigs": [["real_fsdp", mode, W, Gs]], "sample": {k: desc[k] for k in ("family", "mode", "W", "R", "S", "G", "shapes")} | {"ranges_rank0": res[0]["ranges"]}}
+            counters["real_sub_tensors"] += o.get("sub_tensors", 0)
+        return {"counters": counters, "sigs": [[desc["family"], mode, W, Gs]], "sample": {k: desc[k] for k in ("family", "mode", "W", "R", "S", "G", "shapes")} | {"ranges_rank0": res[0].get("ranges")}}
     finally:
         shutil.rmtree(d, ignore_errors=True)
